@@ -236,6 +236,17 @@ func runScenario(c *hx.Ctx, or *hx.Oracle, sc *Scenario, tag string) {
 	if start > n {
 		start = n
 	}
+	or.Ask("idx all", 1)
+	if n > 2000 { // long chain: compare around the ends, the window boundary and the floor region only
+		var l []string
+		for i := 0; i < n; i++ {
+			if i < 12 || (i > 8170 && i < 8215) || i > n-45 {
+				r.idx = append(r.idx, uint64(i))
+				l = append(l, fmt.Sprint(i))
+			}
+		}
+		or.Ask("idx "+strings.Join(l, ","), 1)
+	}
 	or.Ask(fmt.Sprintf("init %d", start-1), 1)
 	if sc.Cfg.MinAgeSec > 0 {
 		hx.Must(r.p.VerifSeedFloor())
@@ -247,7 +258,9 @@ func runScenario(c *hx.Ctx, or *hx.Oracle, sc *Scenario, tag string) {
 		pend, samp uint64
 		k          uint64
 		head       uint64
+		id         string
 	}
+	evCount := 0
 	var biggest *pruneCase
 	var biggestN uint64
 	for i := start - 1; i < n; i++ {
@@ -264,8 +277,13 @@ func runScenario(c *hx.Ctx, or *hx.Oracle, sc *Scenario, tag string) {
 			evs = append(evs, event{kind: "l1", l1: l1})
 		}
 		for _, ev := range evs {
-			pc := &pruneCase{pre: r.px.Database.Copy(), ev: ev, pend: r.p.VerifPendingL2Heads(),
-				samp: r.p.VerifLatestSampledHeight(), head: uint64(i)}
+			evCount++
+			pc := &pruneCase{ev: ev, pend: r.p.VerifPendingL2Heads(),
+				samp: r.p.VerifLatestSampledHeight(), head: uint64(i), id: fmt.Sprint(evCount)}
+			if sc.Interrupt {
+				pc.pre = r.px.Database.Copy()
+				or.Ask("save "+pc.id, 1)
+			}
 			oldBefore, _ := pruner.OldestRetainedBlock(r.px)
 			k, pruned := r.fire(r.p, r.B, ev, ctx, true)
 			if pruned {
@@ -280,9 +298,52 @@ func runScenario(c *hx.Ctx, or *hx.Oracle, sc *Scenario, tag string) {
 	r.compareTwin(r.B, r.e, "complete", true)
 	c.Hist[fmt.Sprintf("final-floor>0:%v", r.e > 0)]++
 	if sc.Interrupt && biggest != nil {
-		r.interruptions(biggest.pre, biggest.ev, biggest.pend, biggest.samp, biggest.k, biggest.head)
+		or.Ask("save final", 1)
+		r.interruptions(biggest.pre, biggest.ev, biggest.pend, biggest.samp, biggest.k, biggest.head, biggest.id)
+		or.Ask("load final", 1)
 	}
 	r.revertAndExtend()
 }
 
 var _ = strings.Fields
+
+func l1HeadOf(n uint64) *core.L1Head { return &core.L1Head{BlockNumber: n, BlockHash: F(n), StateRoot: F(1)} }
+
+func main() {
+	c := hx.NewCtx("C16")
+	or := hx.StartOracle(c.OraclePath)
+	defer or.Close()
+	if c.ReplayIn != "" {
+		var sc Scenario
+		c.LoadReplay(&sc)
+		runScenario(c, or, &sc, "replay")
+		c.Finish("twin(pruned,unpruned) + extracted pruner model; predicate: floor bound, retained unchanged, state from floor-1, below floor pruned-or-exact, resume, revert/extend")
+	}
+	g := hx.NewRNG(c.Seed)
+	short := 10
+	if c.Thorough() {
+		short = 120
+	}
+	for i := 0; i < short; i++ {
+		for _, ns := range []bool{false, true} {
+			sc := genScenario(g.Fork(uint64(i)), ns, 16+g.Intn(14), false)
+			c.Hist["retained:"+fmt.Sprint(sc.Cfg.Retained)]++
+			c.Hist["l1:"+sc.L1Mode]++
+			c.Hist[fmt.Sprintf("min-age:%v batch:%d", sc.Cfg.MinAgeSec > 0, sc.Cfg.Batch)]++
+			runScenario(c, or, sc, fmt.Sprintf("short %d", i))
+		}
+	}
+	// one chain across a bloom-window boundary (8192): window deletes, running filter, carve-outs
+	longs := []bool{c.Seed%2 == 0}
+	if c.Thorough() {
+		longs = []bool{false, true}
+	}
+	for _, ns := range longs {
+		sc := genScenario(g.Fork(777), ns, 8192+30, true)
+		sc.Cfg.Retained, sc.Cfg.Every, sc.L1Mode, sc.L1Lag, sc.Sync = 3, 1, "lag", 2, 8192+26
+		sc.Cfg.Batch = 0
+		c.Hist["long"]++
+		runScenario(c, or, sc, "long")
+	}
+	c.Finish("twin(pruned,unpruned) + extracted pruner model; predicate: floor bound, retained unchanged, state from floor-1, below floor pruned-or-exact, resume, revert/extend")
+}
